@@ -58,6 +58,25 @@ def check(run):
         else:
             c["fam"] = run.rng.choice(["eq", "ne", "gt"])
         plans.append([c])
+    # nil (not merely empty) inputs, and the comparable helpers on byte and string elements (ids mapped to 0x7e+id resp. "", "a", ...)
+    for c in list(plans):
+        c0 = c[0]
+        if len(c0["s"]) == 0 and c0["op"] not in ("Last",):
+            plans.append([dict(c0, nils=True)])
+    for c0 in map_cases(run.rng, 0):
+        if not c0["aux"]:
+            plans.append([dict(c0, nils=True)])
+    import itertools
+    for ty in ("byte", "string"):
+        for n in range(0, 4):
+            for sv in itertools.product([0, 1, 2, 3], repeat=n):
+                for aux in ([], [0], [2], [1, 3], [3, 0]):
+                    for op in ("Trim", "TrimLeft", "TrimRight", "Except"):
+                        plans.append([dict(op=op, s=list(sv), a=0, b=0, aux=aux, fam="", ty=ty)])
+                for a in (0, 1, 2, 3):
+                    plans.append([dict(op="Index", s=list(sv), a=a, b=0, aux=[], fam="", ty=ty)])
+                    plans.append([dict(op="Contains", s=list(sv), a=a, b=0, aux=[], fam="", ty=ty)])
+                plans.append([dict(op="Distinct", s=list(sv), a=0, b=0, aux=[], fam="", ty=ty)])
     # many distinct values / keys: growth thresholds (8, 16, 32, 64 ...) of the slices and maps the helpers build internally
     for i in range(40 if run.quick() else 600):
         op = run.rng.choice(["GroupBy", "CountBy", "Distinct", "DistinctFunc", "Filter", "Except", "ExceptSetM", "ExceptSetS", "Map", "Fold", "FoldReverse"])
